@@ -244,6 +244,25 @@ func (rs *RewardShadow) ProcessTx(o *TxOutcome) []claimObs {
 	rs.withdrawals(o.Pre, o.Pre.Time, o.Ev)
 	// claims: explicit or implicit, identified from the typed events (the asset is the step's denom)
 	den := o.Step.Den
+	// the payouts themselves are x/bank transfers out of the rewards pool; the module's own typed event only says
+	// which position each belongs to. If such a transfer has no typed event naming its receiver, the event schema
+	// has changed under the monitor: that is not a verdict about the property
+	for _, t := range o.Ev.Transfers {
+		if t.From != rs.R.W.PoolAddr.String() || t.To != o.Actor {
+			continue
+		}
+		named := false
+		for _, c := range o.Ev.Claims {
+			if c.Delegator == t.To {
+				named = true
+			}
+		}
+		if !named {
+			rs.R.Rep.Inconclusive("a payout from the rewards pool to " + rs.R.W.Name(t.To) + " is not accompanied by a ClaimAllianceRewardsEvent naming it (fields allianceSender/validator/coins): the module's event schema differs from what the reward monitors read")
+			rs.R.Halt = true
+			return nil
+		}
+	}
 	switch o.Step.K {
 	case "claim", "delegate", "undelegate", "redelegate":
 		for _, c := range o.Ev.Claims {
